@@ -127,7 +127,7 @@ def eval_ladder(kind, cfg, lad):
 
 def plan(ctx):
     out = [(sp, K, "basic") for sp, K in pred.plan_spaces(ctx)]
-    rel = [("G2", "K0", "rel"), ("G3|V12", "K0", "rel"), ("G4|V6", "K0", "rel"), ("G5|V4", "K0", "rel"), ("GP", "K0", "rel")]
+    rel = [("G2", "K0", "rel"), ("G3|V12", "K0", "rel"), ("G3|VF", "K0", "rel"), ("G4|VF", "K0", "rel"), ("G4|V6", "K0", "rel"), ("G5|V4", "K0", "rel"), ("GP", "K0", "rel")]
     for K in spaces.PREDK[1:]:
         rel.append(("G3|V12", K, "rel"))
     if ctx.thorough:
